@@ -658,12 +658,13 @@ Examples:
     def dec(f):
         def func(x, *args, **kwds):
             for i,j in mask.items():
-                try: x[i] = x[j]
-                except TypeError: # value is tuple with f(x) or constant
+                if isinstance(j, tuple): # value is tuple with f(x) or constant
                   j0,j1 = (j[:2] + (1,))[:2]
                   try: x[i] = j1(x[j0]) if isinstance(j1, _Callable) else j1*x[j0]
                   except IndexError: pass
-                except IndexError: pass
+                else:
+                  try: x[i] = x[j]
+                  except IndexError: pass
             return f(x, *args, **kwds)
         func.__wrapped__ = f   #XXX: getattr(f, '__wrapped__', f) ?
         func.__doc__ = f.__doc__
